@@ -177,3 +177,10 @@ Proof. intros d H. unfold simpson_accepts, simpson2d_accepts. cbv zeta. split; b
 
 Lemma accept_1d_2d : forall d, simpson_accepts d = true -> simpson2d_accepts d = true.
 Proof. intros d Ha. unfold simpson_accepts, simpson2d_accepts in *. cbv zeta in *. bool_facts. bool_goal; zmod_lia. Qed.
+
+(* the division counts the entry points really use stay within 2 of the requested one *)
+Lemma norm_bounds : forall d, (4 <= d)%Z ->
+  (d - 2 <= simpson_norm d <= d)%Z /\ (d <= simpson2d_norm d <= d + 1)%Z.
+Proof.
+  intros d H. unfold simpson_norm, simpson_norm_divs, simpson2d_norm, simpson2d_norm_divs. cbv zeta. split; zmod_lia.
+Qed.
